@@ -8,6 +8,7 @@ import (
 	"fmt"
 	"reflect"
 	"sort"
+	"sync"
 
 	"pgregory.net/rapid"
 
@@ -80,11 +81,13 @@ func New(e Entry) Cmd {
 	return c
 }
 
-// NewValid returns the factory-fresh command brought into the generator's domain: strings without a
-// buffer format get format 0x04, dates start at 1980, pads have the length their decoder expects and
-// counts agree with the (empty) buffers. Several factories leave BufferFormat 0, which does not encode.
+// NewValid returns the factory-fresh command brought into the generator's domain: strings take the buffer
+// format their command puts on the wire (AdoptWireFormats; format 0x04 where that cannot be told and the
+// factory left none), dates start at 1980, pads have the length their decoder expects and counts agree
+// with the (empty) buffers. Several factories leave BufferFormat 0, which does not encode.
 func NewValid(e Entry) Cmd {
 	c := New(e)
+	AdoptWireFormats(c)
 	rv := reflect.ValueOf(c).Elem()
 	for _, f := range OwnFields(c) {
 		Normalize(rv.FieldByName(f.Name))
@@ -280,6 +283,100 @@ func ApplyRelations(c Cmd) {
 	}
 }
 
+// ---- the buffer format a command gives each of its strings ------------------------------------------------
+//
+// Which format byte introduces a string field is the command's business: some encoders emit the format the
+// field holds, others decide it themselves - and whether they then write it back into the field is theirs to
+// choose as well, so nothing here reads a format off a structure after encoding it. The wire is asked
+// instead, once per structure: the factory-fresh structure is encoded with a three-byte content in every
+// string field (format 0x04 where the factory left none, as before), each content is located by marking, and the
+// byte that introduces it - one byte in front of it for the NUL-terminated formats 0x02/0x04, three bytes
+// in front of it and followed by the 16-bit length for 0x01/0x03/0x05, inside the data block - is the format
+// the command uses for that field. Strings are generated in that format only ("every string buffer format
+// the command uses"). Where no format byte is found (the string is emitted without that framing, or the
+// structure does not encode) nothing is known and the field keeps the format it holds.
+
+var wireFormats = struct {
+	sync.Mutex
+	m map[string]map[string]uint8
+}{m: map[string]map[string]uint8{}}
+
+// FormatAt reads the buffer format that introduces n content bytes located at start in enc, whose data
+// block starts at dataStart (0: there is none).
+func FormatAt(enc []byte, start, n, dataStart int) uint8 {
+	if start-3 >= dataStart && start <= len(enc) {
+		if f := enc[start-3]; (f == 1 || f == 3 || f == 5) && enc[start-2] == byte(n) && enc[start-1] == byte(n>>8) {
+			return f
+		}
+	}
+	if start-1 >= dataStart && start+n < len(enc) {
+		if f := enc[start-1]; (f == 2 || f == 4) && enc[start+n] == 0 {
+			return f
+		}
+	}
+	return 0
+}
+
+func probeFormats(e Entry) map[string]uint8 {
+	out := map[string]uint8{}
+	cmd := New(e)
+	rv := reflect.ValueOf(cmd).Elem()
+	var names []string
+	for _, f := range OwnFields(cmd) {
+		fv := rv.FieldByName(f.Name)
+		Normalize(fv)
+		if _, str, ok := content(fv); ok && str.IsValid() {
+			SetContent(fv, []byte("AAA"))
+			names = append(names, f.Name)
+		}
+	}
+	if len(names) == 0 {
+		return out
+	}
+	ApplyRelations(cmd)
+	fields := Snapshot(cmd)
+	for _, n := range names {
+		sl := MarkVar(e, fields, n)
+		if sl.ProblemKind != "" || sl.Width != sl.TypeWidth || len(sl.Enc) < 3 {
+			continue
+		}
+		if f := FormatAt(sl.Enc, sl.Start, sl.Width, 1+2*int(sl.Enc[0])+2); f != 0 {
+			out[n] = f
+		}
+	}
+	return out
+}
+
+// WireFormat returns the buffer format structure e puts in front of the content of its string field
+// (0: not known).
+func WireFormat(e Entry, field string) uint8 {
+	wireFormats.Lock()
+	defer wireFormats.Unlock()
+	m, ok := wireFormats.m[e.Name]
+	if !ok {
+		m = probeFormats(e)
+		wireFormats.m[e.Name] = m
+	}
+	return m[field]
+}
+
+// AdoptWireFormats gives every own string field of c the buffer format its command uses for it, where
+// that is known; the other strings keep the format they hold.
+func AdoptWireFormats(c Cmd) {
+	rv := reflect.ValueOf(c).Elem()
+	e, ok := ByName(rv.Type().Name())
+	if !ok {
+		return
+	}
+	for _, f := range OwnFields(c) {
+		if _, str, ok := content(rv.FieldByName(f.Name)); ok && str.IsValid() {
+			if wf := WireFormat(e, f.Name); wf != 0 {
+				str.FieldByName("BufferFormat").SetUint(uint64(wf))
+			}
+		}
+	}
+}
+
 // ---- filling -------------------------------------------------------------------------------------------
 
 type Options struct {
@@ -352,6 +449,8 @@ func fillValue(t *rapid.T, v reflect.Value, o Options, label string) {
 		if v.Type().String() == "types.OEM_STRING" {
 			s = v.FieldByName("SMB_STRING")
 		}
+		// the format the field holds: for a command's own strings the one the command uses (Fill has
+		// put it there), else the factory's; 0x04 when there is none
 		f := uint8(s.FieldByName("BufferFormat").Uint())
 		if f < 1 || f > 5 {
 			f = 4
@@ -485,6 +584,8 @@ func fillValue(t *rapid.T, v reflect.Value, o Options, label string) {
 // DistinctBytes promises integers with pairwise distinct bytes, so it switches those two classes off.
 func Fill(t *rapid.T, c Cmd, o Options) {
 	rv := reflect.ValueOf(c).Elem()
+	// every string is generated in the format its command uses for it (read off the wire once)
+	AdoptWireFormats(c)
 	for _, f := range OwnFields(c) {
 		fv := rv.FieldByName(f.Name)
 		elems := fv.Kind() == reflect.Slice && fv.Type().Elem().Kind() != reflect.Uint8
@@ -504,7 +605,10 @@ func Fill(t *rapid.T, c Cmd, o Options) {
 }
 
 // Normalize brings a factory-default value into the domain the generator works in: a string without
-// a buffer format gets format 0x04 (as fillValue does), a packed date starts at 1980.
+// a buffer format gets format 0x04 (as fillValue does), a packed date starts at 1980. It sees a value,
+// not the command it belongs to: the own string fields of a command have been given the format their
+// command uses beforehand (AdoptWireFormats in Fill / NewValid), so 0x04 is what is left for strings
+// whose format cannot be read off the wire and for strings nested in other types.
 func Normalize(v reflect.Value) {
 	switch v.Type().String() {
 	case "types.SMB_STRING":
@@ -1248,6 +1352,7 @@ func DataByteFields(e Entry) (out []string) {
 	cmd := New(e)
 	rv := reflect.ValueOf(cmd).Elem()
 	var names []string
+	AdoptWireFormats(cmd)
 	for _, f := range OwnFields(cmd) {
 		if IsByteField(f.Type) {
 			Normalize(rv.FieldByName(f.Name))
@@ -1390,25 +1495,29 @@ type Gap struct {
 // stringFraming returns how many bytes of its own encoding precede and follow the content of the byte
 // field v whose content was located at start in enc: (1, 1) for formats 0x02/0x04 when the format byte is
 // there, (3, 0) for 0x01/0x05 and (3, 1) for 0x03 when format byte and length are there, (0, 0) for raw bytes
-// and for a string that is emitted without that framing.
-func stringFraming(v reflect.Value, enc []byte, start int) (lead, trail int) {
+// and for a string that is emitted without that framing. Which format to look for is not asked of the
+// structure after encoding (an encoder that decides the format need not write it back into the field):
+// it is the format this command was seen to put in front of this field (wire; 0 = not known) or the one
+// the field was given, whichever stands there.
+func stringFraming(v reflect.Value, wire uint8, enc []byte, start int) (lead, trail int) {
 	_, str, ok := content(v)
 	if !ok || !str.IsValid() {
 		return 0, 0
 	}
-	f := byte(str.FieldByName("BufferFormat").Uint())
 	n := str.FieldByName("Buffer").Len()
-	switch f {
-	case 2, 4:
-		if start >= 1 && enc[start-1] == f {
-			return 1, 1
-		}
-	case 1, 3, 5:
-		if start >= 3 && enc[start-3] == f && enc[start-2] == byte(n) && enc[start-1] == byte(n>>8) {
-			if f == 3 {
-				return 3, 1
+	for _, f := range []byte{wire, byte(str.FieldByName("BufferFormat").Uint())} {
+		switch f {
+		case 2, 4:
+			if start >= 1 && enc[start-1] == f {
+				return 1, 1
 			}
-			return 3, 0
+		case 1, 3, 5:
+			if start >= 3 && enc[start-3] == f && enc[start-2] == byte(n) && enc[start-1] == byte(n>>8) {
+				if f == 3 {
+					return 3, 1
+				}
+				return 3, 0
+			}
 		}
 	}
 	return 0, 0
@@ -1424,9 +1533,8 @@ func Gaps(e Entry, fields map[string]json.RawMessage, l Located) (out []Gap) {
 	if err := Restore(cmd, fields); err != nil {
 		return nil
 	}
-	// several encoders set the buffer format of their strings themselves (the field then holds it): the
-	// framing is read off the structure as it is after encoding
-	safeMarshal(cmd)
+	// several encoders set the buffer format of their strings themselves, whatever the field holds: the
+	// framing is looked for on the wire (stringFraming), the structure is not encoded here
 	rv := reflect.ValueOf(cmd).Elem()
 	at := map[string]Loc{}
 	for _, loc := range l.Locs {
@@ -1444,7 +1552,7 @@ func Gaps(e Entry, fields map[string]json.RawMessage, l Located) (out []Gap) {
 		case "fixed", "count":
 			end = a.Start + a.TypeWidth
 		case "bytes":
-			_, trail := stringFraming(rv.FieldByName(a.Name), l.Enc, a.Start)
+			_, trail := stringFraming(rv.FieldByName(a.Name), WireFormat(e, a.Name), l.Enc, a.Start)
 			end = a.Start + a.Width + trail
 		default:
 			continue
@@ -1457,7 +1565,7 @@ func Gaps(e Entry, fields map[string]json.RawMessage, l Located) (out []Gap) {
 			// a count wider than the bytes that changed: they may be its low-order or its high-order end
 			slack = b.TypeWidth - b.Width
 		case "bytes":
-			lead, _ = stringFraming(rv.FieldByName(b.Name), l.Enc, b.Start)
+			lead, _ = stringFraming(rv.FieldByName(b.Name), WireFormat(e, b.Name), l.Enc, b.Start)
 		default:
 			continue
 		}
